@@ -667,7 +667,10 @@ impl Exec {
                         ));
                     }
                 }
-                self.audit(&format!("after op {idx} (reopen)"))?;
+                // a cold reopen leaves every cache empty for the next operation: no audit reads
+                if !arg.get("cold").and_then(|c| c.as_bool()).unwrap_or(false) {
+                    self.audit(&format!("after op {idx} (reopen)"))?;
+                }
             }
             "rb" => {
                 let k = arg.as_u64().unwrap() as usize;
